@@ -43,6 +43,7 @@ func init() {
 		// ---- the chronicler's choice of operation and its handling of a refused entry
 		c01Chronicler(fs)
 		c01ApiValidation(fs)
+		c01OpenExisting(fs, wr)
 		// ---- every path that buffers entries obeys the per-entry flush rule
 		c01BatchPaths(fs, wr, rd)
 	}})
@@ -560,5 +561,30 @@ func c01ApiValidation(fs *Facts) {
 		fs.Tri("apiValidatesKeys", Yes, where)
 	default:
 		fs.Tri("apiValidatesKeys", Unknown, where)
+	}
+}
+
+// c01OpenExisting: does openExistingFile cut a torn tail?  yes = a `for` loop reading block headers with
+// file.ReadAt(bh, end) and advancing by BlockHeaderSize + CompressedSize, followed by
+// `if end < info.Size() { … file.Truncate(end) … }`; no = neither ReadAt nor Truncate in the function.
+func c01OpenExisting(fs *Facts, f *File) {
+	if f == nil || f.Func("FileWriter", "openExistingFile") == nil {
+		fs.Tri("openCutsTornTail", Unknown, c01Writer)
+		return
+	}
+	fd := f.Func("FileWriter", "openExistingFile")
+	where := c01Writer + ":" + itoa(f.Line(fd))
+	b := strings.ReplaceAll(f.Str(fd.Body), " ", "")
+	hasRead, hasTrunc := strings.Contains(b, "file.ReadAt("), strings.Contains(b, "file.Truncate(")
+	walk := strings.Contains(b, "file.ReadAt(bh,end)") &&
+		strings.Contains(b, "next:=end+BlockHeaderSize+int64(binary.LittleEndian.Uint32(bh[0:4]))") &&
+		strings.Contains(b, "ifnext>info.Size(){break}") && strings.Contains(b, "ifend<info.Size(){iferr:=file.Truncate(end)")
+	switch {
+	case walk:
+		fs.Tri("openCutsTornTail", Yes, where)
+	case !hasRead && !hasTrunc:
+		fs.Tri("openCutsTornTail", No, where)
+	default:
+		fs.Tri("openCutsTornTail", Unknown, where)
 	}
 }
